@@ -17,6 +17,7 @@ type StyleOpts struct {
 	DQEscapes      bool // double-quoted scalars using non-spellable escapes (known class C06-K2)
 	IndentInd      bool // explicit indentation indicators with extra leading spaces (known class C06-K3)
 	FlowMaps       bool // labels/annotations as flow mappings
+	Aliases        bool // anchors + aliases: a whole rules list shared by two groups, a rule listed twice, a labels map reused (Styler.Alias)
 	Comments       bool // plain (non-pint) comments and blank lines between entries
 	VarIndent      bool // indentation steps other than 2, indentless sequences
 	TrailingBlanks bool // blank lines after block scalars (with keep chomping)
@@ -67,7 +68,24 @@ var SimpleExprs = []string{
 	`histogram_quantile(0.9, sum(rate(foo[5m])) by (le)) > 1`,
 	`foo{job=~"a|b"} * on (instance) group_left (team) bar`,
 	`1 - avg(rate(node_cpu_seconds_total{mode="idle"}[5m])) by (instance) > 0.9`,
+	// one physical line far beyond any 4 KiB read buffer
+	`up{instance=~"` + longAlternation + `"} == 0`,
 }
+
+// longAlternation is a 4.6 KiB regexp alternation (host names), longText a 5 KiB sentence.
+var (
+	longAlternation = func() string {
+		var b strings.Builder
+		for i := 0; b.Len() < 4600; i++ {
+			if i > 0 {
+				b.WriteString("|")
+			}
+			fmt.Fprintf(&b, "node%03d\\.example\\.com:9100", i)
+		}
+		return b.String()
+	}()
+	longText = strings.TrimSpace(strings.Repeat("lorem ipsum dolor sit amet ", 190))
+)
 
 var AnnotationValues = []string{
 	`plain text`,
@@ -85,6 +103,7 @@ var AnnotationValues = []string{
 	"tab\tseparated\tvalue {{ $value }}",
 	"nbsp\u00a0and nel\u0085inside",
 	"bell\x07 esc\x1b[0m sep\u2028end",
+	longText + " {{ $labels.job }}",
 }
 
 // Model -----------------------------------------------------------------------
@@ -696,11 +715,90 @@ func (s *Styler) Doc(d DocSpec) string {
 			groups.ItemBefore = append(groups.ItemBefore, nil)
 		}
 	}
+	s.Alias(groups)
 	root := &Node{Kind: MapKind, Pairs: []Pair{{Key: P("groups"), Val: groups, Before: s.filler()}}}
 	if s.Opts.VarIndent {
 		root.Indent = rapid.IntRange(1, 6).Draw(s.T, s.lbl("rootind"))
 	}
 	return s.Finish(Emit(root))
+}
+
+// Alias rewrites parts of a groups list (as built by Group) with YAML anchors and aliases - all of them ways of
+// writing the same rules once more that the YAML decoder (and so Prometheus) resolves: the whole `rules:` list of
+// a group shared by a later group, a rule listed a second time through an alias, a labels / annotations mapping
+// reused by a later rule.  No-op unless Opts.Aliases.
+func (s *Styler) Alias(groups *Node) {
+	if !s.Opts.Aliases || rapid.IntRange(0, 2).Draw(s.T, s.lbl("alias")) != 0 {
+		return
+	}
+	pairOf := func(m *Node, key string) *Pair {
+		if m == nil || m.Kind != MapKind {
+			return nil
+		}
+		for i := range m.Pairs {
+			if keyText(m.Pairs[i].Key) == key {
+				return &m.Pairs[i]
+			}
+		}
+		return nil
+	}
+	n := 0
+	anchor := func(node *Node) string {
+		if node.Anchor == "" {
+			n++
+			node.Anchor = fmt.Sprintf("a%d", n)
+		}
+		return node.Anchor
+	}
+	switch rapid.SampledFrom([]string{"rules-list", "rule-twice", "map-reused"}).Draw(s.T, s.lbl("aliaskind")) {
+	case "rules-list":
+		if len(groups.Items) < 2 {
+			return
+		}
+		i := rapid.IntRange(0, len(groups.Items)-2).Draw(s.T, s.lbl("aliasfrom"))
+		j := rapid.IntRange(i+1, len(groups.Items)-1).Draw(s.T, s.lbl("aliasto"))
+		src, dst := pairOf(groups.Items[i], "rules"), pairOf(groups.Items[j], "rules")
+		if src == nil || dst == nil || src.Val == nil || src.Val.Kind != SeqKind || len(src.Val.Items) == 0 {
+			return
+		}
+		dst.Val = &Node{Kind: AliasKind, Alias: anchor(src.Val)}
+		s.Used["alias-rules-list"]++
+	case "rule-twice":
+		g := groups.Items[rapid.IntRange(0, len(groups.Items)-1).Draw(s.T, s.lbl("aliasg"))]
+		rp := pairOf(g, "rules")
+		if rp == nil || rp.Val == nil || rp.Val.Kind != SeqKind || len(rp.Val.Items) == 0 {
+			return
+		}
+		it := rp.Val.Items[rapid.IntRange(0, len(rp.Val.Items)-1).Draw(s.T, s.lbl("aliasr"))]
+		if it == nil || it.Kind != MapKind || it.Flow {
+			return
+		}
+		rp.Val.Items = append(rp.Val.Items, &Node{Kind: AliasKind, Alias: anchor(it)})
+		s.Used["alias-rule-twice"]++
+	default:
+		// the first labels / annotations mapping found is reused by every later rule that has that field
+		for _, field := range []string{"labels", "annotations"} {
+			var first *Node
+			for _, g := range groups.Items {
+				rp := pairOf(g, "rules")
+				if rp == nil || rp.Val == nil || rp.Val.Kind != SeqKind {
+					continue
+				}
+				for _, it := range rp.Val.Items {
+					fp := pairOf(it, field)
+					if fp == nil || fp.Val == nil || fp.Val.Kind != MapKind {
+						continue
+					}
+					if first == nil {
+						first = fp.Val
+						continue
+					}
+					fp.Val = &Node{Kind: AliasKind, Alias: anchor(first)}
+					s.Used["alias-map-reused"]++
+				}
+			}
+		}
+	}
 }
 
 // Finish applies document-level presentation (doc start, CRLF, final newline).
